@@ -75,6 +75,7 @@ def gen_cell(rng, d, lo=2.0, hi=5.0):
         for i in range(d):
             for j in range(i):
                 H[i][j] = dec(rng, -1, 1, 2)
+        common.sparse_tilt(rng, H)
     return kind, H
 
 
